@@ -1,5 +1,5 @@
 (* OblC02.v — generated-table obligations for the encoders (C02, C09); compiled on every run. *)
-From NV Require Import Base Bits Defn PyNum Fields Dispatch Template TemplateEnc Encode Spec SpecProofs EncodeProofs.
+From NV Require Import Base Bits Defn PyNum Fields Dispatch Template TemplateEnc Encode Spec SpecProofs EncodeProofs FloatRT.
 From NVGen Require Import GenDb GenCode GenLookups.
 
 Definition db_groups : list (list dbdef) := groups db_defs.
@@ -34,5 +34,21 @@ Proof.
 Qed.
 Print Assumptions C02_bits.
 
+(* the hypotheses of C02_float hold for every number / date / time / duration field of every encodable
+   definition that is at most 48 bits wide (wider fields: the property only asks for closeness) *)
+Definition numeric_params (f : dbfield) : option (Z * bool * num) :=
+  match f_bitlen f, f_res f with
+  | Some len, Some r =>
+      if is_t f T_NUMBER || is_t f T_PGN || is_t f T_DATE || is_t f T_TIME || is_t f T_DURATION
+      then Some (len, f_signed f, r) else None
+  | _, _ => None
+  end.
+Definition narrow (x : Z * bool * num) : bool := fst (fst x) <=? 48.
+Definition numeric_fields : list (Z * bool * num) := flat_map (fun d => flat_map (fun f => match numeric_params f with Some x => [x] | None => [] end) (d_fields d)) enc_defs.
+Theorem C02_numeric_fields :
+  forallb (fun x => num_field_okb (fst (fst x)) (snd (fst x)) (snd x)) (filter narrow numeric_fields) = true.
+Proof. vm_compute. reflexivity. Qed.
+
+Eval vm_compute in (length numeric_fields, length (filter narrow numeric_fields)).
 Eval vm_compute in (length (flat_map bound_defs db_groups), length enc_defs,
                     length (flat_map d_fields enc_defs)).
